@@ -94,7 +94,7 @@ SCALARS = ['1', '0', '-0', '-12', '007', '1.5', '-0.0', '1e5', '1E-2', '1.', '.5
 WS = ['', '', '', ' ', '  ', '\t', ' \n', '\xa0', ' ']
 TEXTS = ['file://a.mp4', 'rtsp://u:p!w@h/s', 'rtsp://u:p!!@h', 'rtsp://u:pw!@h:554/s', 'tcp://localhost:5550', 'mqtt://h:1883/base', 'http://0.0.0.0:8000', 'a', '',
          'rtsp://user:a!b=c@h/s', 'file:///tmp/o_%d.jpg', 'x!y z', 's3://b/p']
-TOPICS = ['main', 'a', 'b', 'c', 'other', 'face_*', 'x/y', 'cam 1', 't!']
+TOPICS = ['main', 'a', 'b', 'c', 'other', 'face_*', 'x/y', 'cam 1', 't!', 'Cam1', 'Main', 'LEFT']      # topic names are case sensitive
 
 
 def rnd_string(rng):
@@ -336,7 +336,7 @@ VOUT_URIS = ['file://o.mp4', 'rtsp://u:p@h:8554/s', 'file://x_%Y-%m-%d.mp4', 'rt
 IOUT_URIS = ['file:///tmp/o_%d.jpg', 'file://o.png', 'file:///path/to/images_%Y%m%d_%H%M%S_%d.png', 'file:///other/path']
 
 
-def gen_io_items(rng, uris, table, item_key, unique_topics, mal, topics_pool=('main', 'a', 'b', 'c', 'camera2', 'face_*')):
+def gen_io_items(rng, uris, table, item_key, unique_topics, mal, topics_pool=('main', 'a', 'b', 'c', 'camera2', 'face_*', 'Cam2', 'Main')):
     """1-4 endpoint items: text form 'uri!opts;topic' and the documented structure {item_key, topic, options}"""
     n = rng.randint(1, 4)
     tps = rng.sample(list(topics_pool), n) if unique_topics else [rng.choice(topics_pool) for _ in range(n)]
@@ -376,7 +376,7 @@ def gen_class_case(rng, cls, mal=False):
         xt, xs = [], []
         for _ in range(rng.randint(0, 4)):
             act = rng.choice(['flipx', 'flipy', 'flipboth', 'rotcw', 'rotccw', 'swaprgb', 'fmtrgb', 'fmtbgr', 'fmtgray', 'resize', 'maxsize', 'minsize', 'box'] + (['zoom', 'flipx 1'] if mal else []))
-            tps = rng.sample(['main', 'a', 'b', 'other'], rng.choice([0, 0, 1, 2]))
+            tps = rng.sample(['main', 'a', 'b', 'other', 'Cam1', 'Main'], rng.choice([0, 0, 1, 2]))
             x = {'action': act.split(' ')[0]}
             if tps: x['topics'] = tps
             t = act.upper() if rng.random() < 0.1 else act
